@@ -3,6 +3,7 @@ package rules
 import (
 	"fmt"
 	"go/token"
+	"sort"
 	"strings"
 
 	"adgverif/an"
@@ -29,7 +30,7 @@ func init() {
 				"all members or panics. R7: the constructor used for a recognised device is built from that profile's blocking mode " +
 				"and filtered-response TTL. R8: every rule-list engine (shared lists, blocked services, safe search) has a result cache of its own, so a cached verdict of one source is never returned for another.",
 			NotCovered: "what the urlfilter engine matches and the allow/block priority inside GetDNSBasicRule (library); equality of verdicts over all rule-list contents.",
-			Rules: map[string]string{"C02-R23": "hash-prefix refresh: publish, then clear the verdict cache, only after success (shared with C13-R3)", "C02-R22": "a domain name built by concatenation and stored into a record's domain-name field is guarded by a length comparison (SOA mbox of blocked answers)", "C02-R21": "SetReply on a message that already is a response is followed by restoring its response code (cached blocked answers in NXDOMAIN / REFUSED mode)", "C02-RC": "class rules (error chains, shadowed results, character classes, crossed arguments, pool constructors, array pools, loop completeness, loop-carried buffers, replacing setters, complete clones, Grow arithmetic, pooled-buffer escape, sorted searches, fresh decode targets, per-iteration objects, whole-message copies, codec guards) over the packages this property rests on", "C02-R20": "the result-cache key is an injective packing of host, full question type, class and direction (shared with C12-R7)", "C02-R19": "response side of the composite filter: first answer with a verdict decides; every rule source consulted with the response's own data as an answer; answer-type dispatch", "C02-R18": "objects built per filtering group / profile in conversion loops take no slice carried across iterations (shared backing array or accumulation)", "C02-R1": "request-filter order", "C02-R2": "FilterRequest precedence", "C02-R17": "pooled per-request filtering state is fully re-initialised; rule-list gathering loops skip (never stop at) an unknown element", "C02-R15": "the profile's rule-list IDs keep the configured order through the backend conversion (the first list with a matching rewrite wins, so reordering changes verdicts)", "C02-R13": "blocking-mode fields (custom IPv4 / IPv6 answers) are converted name-to-name by the backend and file-cache codecs", "C02-R11": "mainmw.filterRequest / filterResponse: the filter is asked about this request and this upstream answer; a CNAME rewrite makes the rewritten question go upstream and restores ID, question and a leading CNAME on the way back instead of response filtering", "C02-R10": "in-place refreshable lists (safe search): engine swap and cache clear in one write-locked section, queries under the lock (shared with C12-R1/R2)", "C02-R3": "rule-list consultation order and rewrite priority",
+			Rules: map[string]string{"C02-R24": "a name handed to a rule list is lower-cased; no domain-name field of an upstream record reaches DNSResult as spelled", "C02-R25": "the hash-prefix verdict cache, shared by all requesters, holds no message made by one requester's constructor (blocking mode, TTL)", "C02-R23": "hash-prefix refresh: publish, then clear the verdict cache, only after success (shared with C13-R3)", "C02-R22": "a domain name built by concatenation and stored into a record's domain-name field is guarded by a length comparison (SOA mbox of blocked answers)", "C02-R21": "SetReply on a message that already is a response is followed by restoring its response code (cached blocked answers in NXDOMAIN / REFUSED mode)", "C02-RC": "class rules (error chains, shadowed results, character classes, crossed arguments, pool constructors, array pools, loop completeness, loop-carried buffers, replacing setters, complete clones, Grow arithmetic, pooled-buffer escape, sorted searches, fresh decode targets, per-iteration objects, whole-message copies, codec guards) over the packages this property rests on", "C02-R20": "the result-cache key is an injective packing of host, full question type, class and direction (shared with C12-R7)", "C02-R19": "response side of the composite filter: first answer with a verdict decides; every rule source consulted with the response's own data as an answer; answer-type dispatch", "C02-R18": "objects built per filtering group / profile in conversion loops take no slice carried across iterations (shared backing array or accumulation)", "C02-R1": "request-filter order", "C02-R2": "FilterRequest precedence", "C02-R17": "pooled per-request filtering state is fully re-initialised; rule-list gathering loops skip (never stop at) an unknown element", "C02-R15": "the profile's rule-list IDs keep the configured order through the backend conversion (the first list with a matching rewrite wins, so reordering changes verdicts)", "C02-R13": "blocking-mode fields (custom IPv4 / IPv6 answers) are converted name-to-name by the backend and file-cache codecs", "C02-R11": "mainmw.filterRequest / filterResponse: the filter is asked about this request and this upstream answer; a CNAME rewrite makes the rewritten question go upstream and restores ID, question and a leading CNAME on the way back instead of response filtering", "C02-R10": "in-place refreshable lists (safe search): engine swap and cache clear in one write-locked section, queries under the lock (shared with C12-R1/R2)", "C02-R3": "rule-list consultation order and rewrite priority",
 				"C02-R4": "network rules before hosts rules", "C02-R5": "filter selection", "C02-R6": "response shaping and exhaustiveness", "C02-R7": "profile constructor provenance", "C02-R8": "one result cache per rule-list engine"},
 		}})
 }
@@ -45,6 +46,14 @@ func runC02(c *an.Ctx) {
 	})
 	c02ListOrder(c)
 	c02ResponseSide(c)
+	// ---- R24: names taken from the upstream's records are lower-cased before they are matched
+	if n := c02NormalisedNames(c, "C02-R24"); n < 3 {
+		c.Und("C02-R24", "names handed to the rule lists", token.NoPos, "only %d DNSResult calls found in the composite filter", n)
+	}
+	// ---- R25: the verdict cache shared by all requesters holds nothing made by one requester's constructor
+	if n := c02SharedCacheValues(c, "C02-R25"); n < 2 {
+		c.Und("C02-R25", "values of the hash-prefix verdict cache", token.NoPos, "only %d stores to cacheItem.res found", n)
+	}
 	// ---- R23: a hash list is published and its verdict cache cleared in the order and under the conditions of C13-R3
 	c.Floor("C02-R23", 2)
 	c.Borrow("C02-R23", runC13, func(o an.Obligation) bool { return o.Rule == "C13-R3" && strings.Contains(o.Key, "hashprefix") })
@@ -901,4 +910,137 @@ func c02ResponseSide(c *an.Ctx) {
 			return ""
 		},
 	})
+}
+
+// c02NormalisedNames: a host name that is matched against the rule lists is
+// lower-cased first.  The request side gets its name from Request.Host, which
+// the initial middleware normalises; on the response side the names come from
+// the records of the upstream's answer, which spells them as it likes.  Every
+// string handed to a rule list's DNSResult is walked back to its sources: a
+// domain-name field of a miekg/dns record reached without passing
+// strings.ToLower or one of the agdnet normalisers is a violation.
+func c02NormalisedNames(c *an.Ctx, rule string) (sinks int) {
+	nameFields := map[string]bool{"Target": true, "Name": true, "Ns": true, "Mbox": true, "Ptr": true, "Mx": true}
+	for _, fn := range c.Prog.AllFns {
+		if !c.Prog.InRepo(fn) || c.Prog.IsTestFile(fn.Pos()) || !strings.HasPrefix(an.FnKey(fn), "filter/internal/composite.") {
+			continue
+		}
+		for _, call := range an.Calls(fn) {
+			name := an.CalleeName(call)
+			if !strings.Contains(name, "filter/internal/rulelist.") || !strings.HasSuffix(name, ").DNSResult") {
+				continue
+			}
+			args := call.Common().Args
+			if len(args) < 4 {
+				continue
+			}
+			sinks++
+			c.Analysed(an.FnKey(fn))
+			var raw []string
+			leaves := 0
+			w := &an.Walker{P: c.Prog, NoFieldJoin: true,
+				Visit: func(v ssa.Value) bool {
+					switch x := v.(type) {
+					case *ssa.Call:
+						n := an.CalleeName(x)
+						if n == "strings.ToLower" || strings.Contains(n, "agdnet.Normalize") || strings.HasSuffix(n, "netip.Addr).String") || strings.HasSuffix(n, "net.IP).String") {
+							leaves++
+							return true
+						}
+					case *ssa.UnOp:
+						if typ, field, _, ok := an.FieldOf(x.X); ok && x.Op == token.MUL {
+							if strings.HasPrefix(typ, "github.com/miekg/dns.") && nameFields[field] {
+								raw = append(raw, fmt.Sprintf("%s.%s (%s)", an.Short(typ), field, c.Prog.Pos(x.Pos())))
+								return true
+							}
+							leaves++
+							return true
+						}
+					}
+					return false
+				},
+				Leaf: func(ssa.Value, string) { leaves++ },
+				ThroughCalls: func(cl *ssa.Call) ([]ssa.Value, bool) {
+					switch an.CalleeName(cl) {
+					case "strings.TrimSuffix", "strings.TrimPrefix", "strings.Split", "strings.TrimSpace", "strings.Clone":
+						return cl.Call.Args[:1], true
+					}
+					return nil, false
+				},
+			}
+			w.Walk(args[3])
+			sort.Strings(raw)
+			key := fmt.Sprintf("%s: the name matched by %s is lower-cased", an.FnKey(fn), an.Short(name))
+			c.Check(len(raw) == 0, rule, key, call.Pos(),
+				fmt.Sprintf("%d sources of the name examined; none is a domain-name field of an upstream record taken as spelled", leaves),
+				"the name comes from "+strings.Join(raw, ", ")+" without strings.ToLower or an agdnet normaliser: an upstream that spells the name with capitals evades every rule for it")
+		}
+	}
+	return sinks
+}
+
+// c02SharedCacheValues: a cache that is shared by all requesters must not hold
+// values built from one requester's own state.  For every store into a value
+// field of the hash-prefix filters' cache items the stored value is walked
+// back; a message made by a method of the requester's *dnsmsg.Constructor
+// (Request.Messages: blocking mode, TTL, error texts of that profile) is such
+// a value unless the cache key is built from the request's constructor too.
+func c02SharedCacheValues(c *an.Ctx, rule string) (n int) {
+	stores := c.Prog.FieldStores("filter/hashprefix.cacheItem", "res")
+	for _, fs := range stores {
+		fn := fs.Store.Parent()
+		if c.Prog.IsTestFile(fn.Pos()) {
+			continue
+		}
+		n++
+		c.Analysed(an.FnKey(fn))
+		made := map[string]bool{}
+		storedType := an.TypeName(an.Deref(an.Unwrap(fs.Val).Type()))
+		w := &an.Walker{P: c.Prog, NoFieldJoin: true,
+			Visit: func(v ssa.Value) bool {
+				if ex, ok := v.(*ssa.Extract); ok {
+					v = ex.Tuple
+				}
+				if al, ok := v.(*ssa.Alloc); ok {
+					// the type switch in front of the store has selected one kind of result
+					if tn := an.TypeName(an.Deref(al.Type())); strings.HasPrefix(tn, "filter/internal.Result") && tn != storedType {
+						return true
+					}
+				}
+				if call, ok := v.(*ssa.Call); ok {
+					name := an.CalleeName(call)
+					if strings.Contains(name, "dnsmsg.Constructor).") {
+						if len(call.Call.Args) > 0 {
+							if ap, ok := an.AccessPath(call.Call.Args[0]); ok && strings.HasSuffix(ap, ".Messages") {
+								made[fmt.Sprintf("%s (%s)", an.Short(name), c.Prog.Pos(call.Pos()))] = true
+								return true
+							}
+						}
+					}
+				}
+				return false
+			},
+			Opaque: func(callee *ssa.Function) bool {
+				k := an.FnKey(callee)
+				return strings.HasSuffix(k, ").Clone") || strings.HasSuffix(k, ").CloneForReq")
+			},
+			ThroughCalls: func(cl *ssa.Call) ([]ssa.Value, bool) {
+				k := an.CalleeName(cl)
+				if strings.HasSuffix(k, ").Clone") || strings.HasSuffix(k, ").CloneForReq") {
+					return cl.Call.Args, true
+				}
+				return nil, false
+			},
+		}
+		w.Walk(fs.Val)
+		var ms []string
+		for m := range made {
+			ms = append(ms, m)
+		}
+		sort.Strings(ms)
+		key := fmt.Sprintf("%s: the shared verdict cache holds nothing built by one requester's constructor (%s stored)", an.FnKey(fn), storedType)
+		c.Check(len(ms) == 0, rule, key, fs.Store.Pos(), "the cached value does not depend on Request.Messages",
+			"the cached value contains a message made by "+strings.Join(ms, ", ")+": the cache key is host, type and class only, so every later requester is served the first requester's blocking-mode shape and TTL")
+	}
+	return n
 }
